@@ -184,6 +184,11 @@ def cases(c):
                             'cplx': cplx, 'kind': 'tones', 'directed': True})
                 out.append({'form': 'class', 'N': N, 'NW': NW, 'k': k, 'NFFT': NFFT, 'method': method,
                             'cplx': cplx, 'kind': 'tones', 'directed': True})
+    # wide bandwidths: the leading concentration ratios tie at rounding level (1 - 1e-15), the supplied order must be kept
+    for (N, NW, k) in [(512, 8, 16), (256, 7.5, 15), (1024, 8, 12)]:
+        for method in ('unity', 'eigen', 'adapt'):
+            out.append({'form': 'precomputed', 'N': N, 'NW': NW, 'k': k, 'NFFT': N, 'method': method, 'cplx': int(N == 256),
+                        'kind': 'noise', 'directed': N == 512})
     for i in range(900 if c.tier == 'quick' else 168000):
         N = int(rng.integers(16, 1025 if i % 6 == 0 else 160))
         NW = float(gen.pick(rng, NWS))
